@@ -598,16 +598,15 @@ theorem C10_nesting_table (parent : Str) :
     (nestingCheck parent "section".toList = .ok () ↔ parent ∈ ["schema", "sectiontype"].map String.toList) ∧
     (nestingCheck parent "multisection".toList = .ok () ↔ parent ∈ ["schema", "sectiontype"].map String.toList) ∧
     (nestingCheck parent "default".toList = .ok () ↔ parent ∈ ["key", "multikey"].map String.toList) ∧
-    (nestingCheck parent "sectiontype".toList = .ok () ↔ parent ∈ ["schema", "component"].map String.toList) ∧
-    (nestingCheck parent "abstracttype".toList = .ok () ↔ parent ∈ ["schema", "component"].map String.toList) ∧
-    (nestingCheck parent "import".toList = .ok () ↔ parent ∈ ["schema", "component"].map String.toList) ∧
+    (nestingCheck parent "sectiontype".toList = .ok () ↔ parent ∈ ["component", "schema"].map String.toList) ∧
+    (nestingCheck parent "abstracttype".toList = .ok () ↔ parent ∈ ["component", "schema"].map String.toList) ∧
+    (nestingCheck parent "import".toList = .ok () ↔ parent ∈ ["component", "schema"].map String.toList) ∧
     (nestingCheck parent "metadefault".toList = .ok () ↔
-        parent ∈ ["key", "section", "multikey", "multisection"].map String.toList) ∧
+        parent ∈ ["key", "multikey", "multisection", "section"].map String.toList) ∧
     (nestingCheck parent "example".toList = .ok () ↔
-        parent ∈ ["schema", "sectiontype", "key", "multikey", "section", "multisection"].map String.toList) ∧
+        parent ∈ ["key", "multikey", "multisection", "schema", "section", "sectiontype"].map String.toList) ∧
     (nestingCheck parent "description".toList = .ok () ↔
-        parent ∈ ["key", "section", "multikey", "multisection", "sectiontype", "abstracttype", "schema",
-                  "component"].map String.toList) ∧
+        parent ∈ ["abstracttype", "component", "key", "multikey", "multisection", "schema", "section", "sectiontype"].map String.toList) ∧
     (nestingCheck parent "schema".toList = .error (.schema "Unknown tag")) ∧
     (nestingCheck parent "component".toList = .error (.schema "Unknown tag")) := by
   refine ⟨tbl _ _ (by decide +kernel) _, tbl _ _ (by decide +kernel) _, tbl _ _ (by decide +kernel) _,
